@@ -524,7 +524,7 @@ def _judge(job, res, results, alltxt, t0):
         return res
     res["unknown"] = len(unknown)
     unwind_fail = [f for f in failed if f["class"] == "unwind"]
-    if unwind_fail and len(unwind_fail) < len(failed):
+    if unwind_fail and len(unwind_fail) < len(failed) and job.mode != "M3":
         # an out-of-bounds access can drag instrumentation-internal loops along;
         # the real failures decide
         failed = [f for f in failed if f["class"] != "unwind"]
